@@ -96,6 +96,7 @@ def required(tier):
     req = {k: int(v * s) for k, v in req.items()}
     req["offset_args_checked"] = 2000
     req["array_calls"] = 400
+    req["dimensionless_spec_args"] = 500
     return req
 
 
@@ -1283,6 +1284,69 @@ def run_offsets(W, rec):
                                       registry=W.nitname, ret="offset")
 
 
+def run_dimensionless(W, rec):
+    """A parameter declared dimensionless ('' / 'dimensionless' / ureg.dimensionless / Unit('')): an
+    EMPTY units container is still a declaration - arguments are converted to plain numbers,
+    dimensional quantities are refused, bare numbers follow the strict rule."""
+    m, ureg, Q, pint = W.m, W.ureg, W.Q, W.pint if hasattr(W, "pint") else __import__("pint")
+    dimless = [c for c in m.order if not m.root(c)[2] and m.is_multiplicative(c) and m.root(c)[0].exact
+               and m.root(c)[0].v > 0 and W._valid(c, c)][:12]
+    rec.observe("dimensionless_units", ",".join(dimless))
+    specs = [("''", ""), ("'dimensionless'", "dimensionless"), ("ureg.dimensionless", ureg.dimensionless),
+             ("Unit('')", ureg.Unit(""))]
+    if not W.allow_str:
+        specs = specs[2:]
+    for label, specobj in specs:
+        for strict in (True, False):
+            got = []
+            w = ureg.wraps(None, (specobj,), strict=strict)(lambda x: got.append(x))
+            fields = dict(decorator="wraps", registry=W.nitname, strict=strict, spec="dimensionless")
+            for c in dimless + [""]:
+                x = F(7, 2) if W.nit is F else 3.5
+                want = F(7, 2) * (m.root(c)[0].v if c else 1)
+                del got[:]
+                rec.count("dimensionless_spec_args")
+                rec.case(("dimless-spec", label, strict, c), nontrivial=bool(c))
+                try:
+                    w(Q(x, c))
+                except Exception as e:  # noqa: BLE001
+                    rec.violation("wraps-raised-on-valid-call", {"spec": label, "arg": f"{x} {c}", "err": srepr(e)[:200]},
+                                  exc=type(e).__name__, **fields)
+                    continue
+                ok = len(got) == 1 and not hasattr(got[0], "_units") and isinstance(got[0], (int, float, F)) \
+                    and abs(F(got[0]) - want) <= F(1, 10 ** 12) * abs(want)
+                if not ok:
+                    rec.violation("wraps-dimensionless-argument", {"spec": label, "arg": f"{x} {c}", "got": srepr(got),
+                                                                   "want": str(want)}, **fields)
+            # a dimensional quantity is refused
+            for bad in ("second", "meter / second"):
+                rec.count("dimensionless_spec_args")
+                try:
+                    w(Q(3, bad))
+                    rec.violation("wraps-accepted-incompatible-argument", {"spec": label, "arg": "3 " + bad}, **fields)
+                except pint.DimensionalityError:
+                    pass
+                except Exception as e:  # noqa: BLE001
+                    rec.violation("wraps-wrong-exception", {"spec": label, "arg": "3 " + bad, "err": srepr(e)[:200]},
+                                  exc=type(e).__name__, **fields)
+            # bare number: refused when strict, handed over unchanged otherwise
+            del got[:]
+            rec.count("dimensionless_spec_args")
+            try:
+                w(0.25)
+                if strict:
+                    rec.violation("wraps-strict-accepted-bare-number", {"spec": label, "arg": "0.25"}, **fields)
+                elif got != [0.25]:
+                    rec.violation("wraps-dimensionless-argument", {"spec": label, "arg": "0.25 (bare)", "got": srepr(got),
+                                                                   "want": "0.25"}, **fields)
+            except ValueError:
+                if not strict:
+                    rec.violation("wraps-nonstrict-refused-bare-number", {"spec": label, "arg": "0.25"}, **fields)
+            except Exception as e:  # noqa: BLE001
+                rec.violation("wraps-wrong-exception", {"spec": label, "arg": "0.25 (bare)", "err": srepr(e)[:200]},
+                              exc=type(e).__name__, **fields)
+
+
 def run_arrays(W, rec, n):
     """ndarray magnitudes, each wrapped function called TWICE with the very same argument objects:
     both calls must receive the converted numbers and the caller's quantities must be left alone."""
@@ -1343,6 +1407,7 @@ def run_shard(spec, rec):
     W = World(spec, rec)
     W.derived_dims = sorted(d for d in W.m.dims)
     run_offsets(W, rec)
+    run_dimensionless(W, rec)
     if W.nit is float:
         run_arrays(W, rec, max(40, spec["n"] // 10))
     rng = W.rng
